@@ -1,6 +1,8 @@
 pub mod common;
 pub mod c01;
 pub mod c02;
+pub mod c03;
+pub mod c04;
 pub mod c06;
 pub mod wire;
 pub mod c05;
@@ -8,6 +10,8 @@ pub mod c12;
 pub mod c13;
 pub mod c07;
 pub mod c08;
+pub mod c10;
+pub mod c11;
 
 use crate::engine::Ctx;
 
@@ -22,9 +26,13 @@ pub fn run(ctx: &Ctx) -> bool {
     match ctx.prop.as_str() {
         "C01" => c01::run(ctx),
         "C02" => c02::run(ctx),
+        "C03" => c03::run(ctx),
+        "C04" => c04::run(ctx),
         "C05" => c05::run(ctx),
         "C06" => c06::run(ctx),
         "C07" => c07::run(ctx),
+        "C10" => c10::run(ctx),
+        "C11" => c11::run(ctx),
         "C12" => c12::run(ctx),
         "C13" => c13::run(ctx),
         "C08" => c08::run(ctx),
